@@ -339,6 +339,13 @@ Definition out_ok (pc : nat) (o : outcome) : Prop :=
   | _ => True
   end.
 
+Lemma take_pairs_Forall : forall (Q : sv -> Prop) n s acc ps r, take_pairs n s acc = Some (ps, r) -> Forall Q s -> Forall Q r.
+Proof.
+  induction n; intros s acc ps r H HF; simpl in H; [inversion H; subst; auto|].
+  destruct s as [|[v| | |] [|[k| | |] s']]; try discriminate.
+  inversion HF as [|? ? _ HF1]; subst. inversion HF1 as [|? ? _ HF2]; subst. eauto.
+Qed.
+
 Ltac okf :=
   repeat match goal with
   | |- _ /\ _ => split
@@ -349,6 +356,8 @@ Ltac okf :=
   | H : Forall _ (_ :: _) |- _ => inversion H; clear H; subst
   | |- Forall sv_ok ?l' =>
       match goal with H : update ?l _ ?x = Some l', HF : Forall sv_ok ?l |- _ => apply (update_Forall sv_ok l _ x l' H HF) end
+  | |- Forall sv_ok ?l' =>
+      match goal with H : take_pairs _ ?l _ = Some (_, l'), HF : Forall sv_ok ?l |- _ => apply (take_pairs_Forall sv_ok _ _ _ _ _ H HF) end
   end; simpl; auto.
 
 Ltac okm :=
@@ -656,6 +665,64 @@ Proof.
   cbn [forallb nj andb]. rewrite forallb_app, stores_nj, forallb_app, pv_code_nj. reflexivity.
 Qed.
 
+(* a property of code segments closed under concatenation and under a leading push / load holds for the entries of an
+   object when it holds for the code of the key and value queries *)
+Lemma comp_ents_Q : forall (Q : nat -> list instr -> Prop),
+  (forall pc, Q pc []) -> (forall pc a b, Q pc a -> Q (pc + length a) b -> Q pc (a ++ b)) ->
+  (forall pc x r, match x with Ipush _ | Iload _ => True | _ => False end -> Q (S pc) r -> Q pc (x :: r)) ->
+  forall (C : query -> nat -> nat -> nat -> res) v (es : list ent) p n s cs n' s', comp_ents C v es p n s = Some (cs, n', s') ->
+  Forall (EntP (fun a => forall p n s c n' s', C a p n s = Some (c, n', s') -> Q p c)) es -> Q p (concat cs).
+Proof.
+  intros Q Qnil Qapp Qcons C v. induction es as [|[k qv] r IH]; intros p n s cs n' s' H HF; simpl in H.
+  - inversion H; subst. apply Qnil.
+  - pose proof (Forall_inv HF) as [Hk Hv]. pose proof (Forall_inv_tail HF) as HF'. simpl in Hk, Hv.
+    destruct k as [str|kq].
+    + destruct (C qv (p + length [Ipush (VStr str)] + 1) n s) as [[[cv n2] s2]|] eqn:Ev; [|discriminate].
+      destruct (comp_ents C v r _ n2 s2) as [[[cr n3] s3]|] eqn:Er; [|discriminate]. inversion H; subst.
+      apply Hv in Ev. apply IH in Er; auto. cbn [concat app].
+      apply Qcons; [exact I|]. apply Qcons; [exact I|]. apply Qapp.
+      * replace (S (S p)) with (p + length [Ipush (VStr str)] + 1) by (simpl; lia). exact Ev.
+      * match goal with H : Q ?a (concat cr) |- Q ?b (concat cr) => replace b with a by (simpl; lia); exact H end.
+    + destruct (C kq (S p) n s) as [[[ck n1] s1]|] eqn:Ek; [|discriminate].
+      destruct (C qv (p + length (Iload v :: ck) + 1) n1 s1) as [[[cv n2] s2]|] eqn:Ev; [|discriminate].
+      destruct (comp_ents C v r _ n2 s2) as [[[cr n3] s3]|] eqn:Er; [|discriminate]. inversion H; subst.
+      apply Hk in Ek. apply Hv in Ev. apply IH in Er; auto. cbn [concat app]. rewrite <- app_assoc.
+      apply Qcons; [exact I|]. apply Qapp; [exact Ek|]. cbn [app]. apply Qcons; [exact I|]. apply Qapp.
+      * match goal with H : Q ?a cv |- Q ?b cv => replace b with a by (simpl; lia); exact H end.
+      * match goal with H : Q ?a (concat cr) |- Q ?b (concat cr) => replace b with a by (simpl; lia); exact H end.
+Qed.
+
+(* the code of a pattern contains neither a conditional jump nor a call-like instruction *)
+Definition plain (x : instr) : bool := match x with Istore _ | Iload _ | Iindex _ | Iindexarray _ | Idup => true | _ => false end.
+Lemma pcomp_plain :
+  (forall p cur nv c b n, pcomp p cur nv = (c, b, n) -> forallb plain c = true) /\
+  (forall l i v cur nv c b n, parr_comp l i v cur nv = (c, b, n) -> forallb plain c = true) /\
+  (forall l v cur nv c b n, pobj_comp l v cur nv = (c, b, n) -> forallb plain c = true).
+Proof.
+  apply pattern_mutind; simpl; intros.
+  - inversion H; subst. reflexivity.
+  - destruct (parr_comp l 0 (cur, nv) cur (S nv)) as [[c0 b0] n0] eqn:E. inversion H0; subst. simpl. eauto.
+  - destruct (pobj_comp l (cur, nv) cur (S nv)) as [[c0 b0] n0] eqn:E. inversion H0; subst. simpl. eauto.
+  - inversion H; subst. reflexivity.
+  - destruct (pcomp p cur nv) as [[c1 b1] n1] eqn:E1. destruct (parr_comp r (S i) v cur n1) as [[c2 b2] n2] eqn:E2.
+    inversion H1; subst. simpl. rewrite forallb_app. erewrite H, H0; eauto.
+  - inversion H; subst. reflexivity.
+  - destruct (pcomp p cur nv) as [[c1 b1] n1] eqn:E1. destruct (pobj_comp r v cur n1) as [[c2 b2] n2] eqn:E2.
+    inversion H1; subst. simpl. rewrite forallb_app. erewrite H, H0; eauto.
+  - destruct (pcomp p cur (S nv)) as [[c1 b1] n1] eqn:E1. destruct (pobj_comp r v cur n1) as [[c2 b2] n2] eqn:E2.
+    inversion H1; subst. simpl. rewrite forallb_app. erewrite H, H0; eauto.
+Qed.
+Lemma plain_nj : forall l, forallb plain l = true -> forallb nj l = true.
+Proof. induction l as [|x r IH]; simpl; intros H; auto. apply andb_true_iff in H. destruct H as [H1 H2]. rewrite IH by auto. destruct x; try discriminate; reflexivity. Qed.
+
+Lemma wrap_exp_jin : forall pc c, jin_ok (S pc) c -> jin_ok pc (wrap_exp c).
+Proof.
+  intros pc c H. unfold wrap_exp. destruct c as [|x [|y r]].
+  - apply jin_cons; [exact I|]. apply jin_cons; [exact I|apply jin_nil].
+  - intros k j Hk. destruct k as [|k]; [|destruct k; discriminate]. simpl in Hk. inversion Hk; subst. pose proof (H 0 j eq_refl). lia.
+  - apply jin_cons; [exact I|]. apply jin_app; [exact H|]. apply jin_cons; [exact I|apply jin_nil].
+Qed.
+
 Lemma comp_jin : forall tco q ce tp cur pc nv sn cq nv' sn', compg tco q ce tp cur pc nv sn = Some (cq, nv', sn') -> jin_ok pc cq.
 Proof.
   intros tco. qind q; intros ce tp cur pc nv sn cq nv' sn' Hc; try (simpl in Hc; dcomp; try (inversion Hc; subst; clear Hc; jin; fail)).
@@ -683,6 +750,31 @@ Proof.
         inversion Hc; subst. apply jin_cons; [exact I|]. apply jin_app; [|jin].
         eapply comp_args_jin; [exact Ea|]. eapply Forall_impl; [|exact IHargs]. simpl. intros a Ha s p0 cb nvc s1 Hca. exact (Ha _ _ _ _ _ _ _ _ _ Hca).
     + inversion Hc; subst. jin.
+  - (* object *) change (comp_object (fun a p n s => compg tco a ce None cur p n s) (cur, nv) es pc nv sn = Some (cq, nv', sn')) in Hc.
+    destruct es as [|e es]; [inversion Hc; subst; jin|].
+    destruct (comp_object_inv _ _ _ _ _ _ _ _ _ _ Hc) as (cs & E & [(kcs & w & _ & _ & ->)|[_ ->]]); [jin|].
+    apply jin_cons; [exact I|]. apply jin_app; [|jin].
+    refine (comp_ents_Q jin_ok jin_nil jin_app _ _ _ _ _ _ _ _ _ _ E _).
+    + intros pc0 x r Hx Hr. apply jin_cons; [destruct x; try contradiction; exact I|exact Hr].
+    + eapply Forall_EntP_impl; [|exact IHes]. simpl. intros a Ha p n s c n' s' H. exact (Ha _ _ _ _ _ _ _ _ _ H).
+  - (* bindp *)
+    destruct (comp_bindp_inv _ _ _ _ _ _ _ _ _ _ _ _ _ Hc) as (_ & _ & cs & n1 & s1 & cp & bs & n2 & cb & Es & Ep & _ & Eb & ->).
+    apply IHs in Es. apply IHb in Eb. apply (proj1 pcomp_plain) in Ep.
+    apply jin_cons; [exact I|]. apply jin_cons; [exact I|]. apply jin_app; [jin|].
+    apply jin_app; [apply nj_jin; apply plain_nj; exact Ep|]. apply jin_cons; [exact I|]. jin.
+  - (* indexq *) change (compg tco (QIndexQ t q) ce tp cur pc nv sn = Some (cq, nv', sn')) in Hc.
+    destruct (comp_indexq_inv _ _ _ _ _ _ _ _ _ _ _ _ Hc) as (_ & _ & _ & cb & nb & s1 & ca & na & Eb & Ea & -> & _).
+    apply IHq in Eb. apply IHt in Ea.
+    apply jin_cons; [exact I|]. apply jin_app; [apply wrap_exp_jin; apply arg_code_jin; eapply jin_eq; [|exact Eb]; lia|].
+    apply jin_app; [apply arg_code_jin; eapply jin_eq; [|exact Ea]; lia|jin].
+  - (* slice *) change (compg tco (QSlice t a b) ce tp cur pc nv sn = Some (cq, nv', sn')) in Hc.
+    destruct (comp_slice_inv _ _ _ _ _ _ _ _ _ _ _ _ _ Hc) as (_ & _ & _ & ca & na & s1 & cb & nb & s2 & ct & nt0 & Ea & Eb & Et & -> & _).
+    cbv zeta in Ea, Eb, Et. apply IHa in Ea. apply IHb in Eb. apply IHt in Et.
+    apply jin_cons; [exact I|]. apply jin_cons; [exact I|].
+    apply jin_app; [apply arg_code_jin; eapply jin_eq; [|exact Ea]; lia|].
+    apply jin_app; [apply arg_code_jin; eapply jin_eq; [|exact Eb]; lia|].
+    apply jin_cons; [exact I|]. apply jin_app; [|jin].
+    eapply jin_eq; [|apply arg_code_jin; eapply jin_eq; [|exact Et]; lia]. lia.
 Qed.
 
 
@@ -738,6 +830,9 @@ Proof.
   cbn [forallb nc call_tgt andb]. rewrite forallb_app, stores_nc, forallb_app, pv_code_nc. reflexivity.
 Qed.
 
+Lemma plain_nc : forall l, forallb plain l = true -> forallb nc l = true.
+Proof. induction l as [|x r IH]; simpl; intros H; auto. apply andb_true_iff in H. destruct H as [H1 H2]. rewrite IH by auto. destruct x; try discriminate; reflexivity. Qed.
+
 Ltac scr_sub := eapply scr_eq; [|solve [eauto]]; simpl; repeat (rewrite app_length; simpl); lia.
 Ltac scrt :=
   repeat first
@@ -791,6 +886,19 @@ Proof.
   - exact (Hclo (x :: y :: r) H).
 Qed.
 
+
+Lemma wrap_exp_scr : forall S pc c, scr S (Datatypes.S pc) c -> (match c with [x] => call_tgt x = None | _ => True end) -> scr S pc (wrap_exp c).
+Proof.
+  intros S pc c H H1. unfold wrap_exp. destruct c as [|x [|y r]].
+  - apply scr_cons; [exact I|]. apply scr_cons; [exact I|apply scr_nil].
+  - apply scr_cons; [rewrite H1; exact I|apply scr_nil].
+  - apply scr_cons; [exact I|]. apply scr_app; [exact H|]. apply scr_cons; [exact I|apply scr_nil].
+Qed.
+Lemma arg_code_single_nc : forall v p sn cb nvc, match arg_code v p sn cb nvc with [x] => call_tgt x = None | _ => True end.
+Proof.
+  intros v p sn cb nvc. unfold arg_code. destruct cb as [|x [|y r]]; simpl; auto.
+  destruct (Nat.eqb nvc 0); simpl; auto. destruct x; simpl; auto.
+Qed.
 
 Lemma comp_args_scr : forall S (C : query -> nat -> nat -> res) l p sn cas p' s2, comp_args C l p sn = Some (cas, p', s2) ->
   Forall (fun a => forall s p0 cb nvc s1, C a s p0 = Some (cb, nvc, s1) -> scr S (p0 + 2) cb) l -> scr S p cas.
@@ -892,6 +1000,43 @@ Proof.
            eapply scr_weaken; [|exact (Ha _ _ _ _ _ _ _ _ _ Hca)]. apply envS_sub; [auto|intros t r Ht; discriminate].
         -- apply scr_cons; [exact I|]. apply scr_cons; [simpl; auto|apply scr_nil].
     + inversion Hc; subst. scrt2.
+  - (* object *) change (comp_object (fun a p n s => compg tco a ce None cur p n s) (cur, nv) es pc nv sn = Some (cq, nv', sn')) in Hc.
+    destruct es as [|e es]; [inversion Hc; subst; scrt2|].
+    destruct (comp_object_inv _ _ _ _ _ _ _ _ _ _ Hc) as (cs & E & [(kcs & w & _ & _ & ->)|[_ ->]]); [scrt2|].
+    apply scr_cons; [exact I|]. apply scr_app; [|apply scr_cons; [exact I|apply scr_nil]].
+    refine (comp_ents_Q (scr (envS ce tp)) (scr_nil _) (scr_app _) _ _ _ _ _ _ _ _ _ _ E _).
+    + intros pc0 x r Hx Hr. apply scr_cons; [destruct x; try contradiction; exact I|exact Hr].
+    + eapply Forall_EntP_impl; [|exact IHes]. simpl. intros a Ha p n s c n' s' H.
+      eapply scr_weaken; [|exact (Ha _ _ _ _ _ _ _ _ _ H)]. apply envS_sub; [auto|intros t r Ht; discriminate].
+  - (* bindp *)
+    destruct (comp_bindp_inv _ _ _ _ _ _ _ _ _ _ _ _ _ Hc) as (_ & _ & cs & n1 & s1 & cp & bs & n2 & cb & Es & Ep & _ & Eb & ->).
+    apply IHs in Es. apply IHb in Eb. apply (proj1 pcomp_plain) in Ep.
+    apply scr_cons; [exact I|]. apply scr_cons; [exact I|]. apply scr_app.
+    + eapply scr_eq; [|eapply scr_weaken; [|exact Es]]; [lia|]. apply envS_sub; [auto|intros t r Ht; discriminate].
+    + apply scr_app; [apply nc_scr; apply plain_nc; exact Ep|]. apply scr_cons; [exact I|].
+      eapply scr_eq; [|eapply scr_weaken; [|exact Eb]]; [simpl; repeat (rewrite app_length; simpl); lia|].
+      intros t [(f & n & Hin)|(r & Hr)].
+      * left. exists f, n. rewrite add_vars_env in Hin. apply in_app_or in Hin. destruct Hin as [Hin|Hin]; [|exact Hin].
+        apply in_map_iff in Hin. destruct Hin as (e & He & _). discriminate.
+      * right. destruct tp as [[t' r']|]; simpl in Hr; [|discriminate]. inversion Hr; subst. eauto.
+  - (* indexq *) change (compg tco (QIndexQ t q) ce tp cur pc nv sn = Some (cq, nv', sn')) in Hc.
+    destruct (comp_indexq_inv _ _ _ _ _ _ _ _ _ _ _ _ Hc) as (_ & _ & _ & cb & nb & s1 & ca & na & Eb & Ea & -> & _).
+    apply IHq in Eb. apply IHt in Ea.
+    assert (W : forall t0, envS ce None t0 -> envS ce tp t0) by (apply envS_sub; [auto|intros t0 r Ht; discriminate]).
+    apply scr_cons; [exact I|]. apply scr_app.
+    + apply wrap_exp_scr; [|apply arg_code_single_nc]. apply arg_code_scr. eapply scr_eq; [|eapply scr_weaken; [exact W|exact Eb]]; lia.
+    + apply scr_app; [apply arg_code_scr; eapply scr_eq; [|eapply scr_weaken; [exact W|exact Ea]]; lia|].
+      apply scr_cons; [exact I|]. apply scr_cons; [exact I|]. apply scr_nil.
+  - (* slice *) change (compg tco (QSlice t a b) ce tp cur pc nv sn = Some (cq, nv', sn')) in Hc.
+    destruct (comp_slice_inv _ _ _ _ _ _ _ _ _ _ _ _ _ Hc) as (_ & _ & _ & ca & na & s1 & cb & nb & s2 & ct & nt0 & Ea & Eb & Et & -> & _).
+    cbv zeta in Ea, Eb, Et. apply IHa in Ea. apply IHb in Eb. apply IHt in Et.
+    assert (W : forall t0, envS ce None t0 -> envS ce tp t0) by (apply envS_sub; [auto|intros t0 r Ht; discriminate]).
+    apply scr_cons; [exact I|]. apply scr_cons; [exact I|].
+    apply scr_app; [apply arg_code_scr; eapply scr_eq; [|eapply scr_weaken; [exact W|exact Ea]]; lia|].
+    apply scr_app; [apply arg_code_scr; eapply scr_eq; [|eapply scr_weaken; [exact W|exact Eb]]; lia|].
+    apply scr_cons; [exact I|].
+    apply scr_app; [eapply scr_eq; [|apply arg_code_scr; eapply scr_eq; [|eapply scr_weaken; [exact W|exact Et]]; lia]; lia|].
+    apply scr_cons; [exact I|]. apply scr_cons; [exact I|]. apply scr_nil.
 Qed.
 
 Lemma checki_intro : forall f l i, (forall k x, nth_error l k = Some x -> f (i + k) x = true) -> checki f l i = true.
